@@ -461,13 +461,20 @@ def build_datagram(q, qwire, kind, arg, marker, rng_bytes):
         return ConnectionRefusedError(111, "Connection refused")
     if kind == "empty":
         return b""
+    if kind == "unknown_tsig":
+        # a well-formed reply carrying a TSIG record nobody asked for: the reader refuses it with an error
+        # that is not a format error (unknown key); anybody can forge this without knowing a key
+        from simkit import reftsig
+
+        mac = bytes((arg + i) % 256 for i in range(32))
+        return reftsig.append_tsig(g, reftsig.tsig_rr("forged.key.", "hmac-sha256.", 1_600_000_000 + arg, 300, mac, q.id))
     raise ValueError(kind)
 
 
 UDP_KINDS = [
     "genuine", "genuine", "wrong_id", "not_response", "wrong_opcode", "wrong_qtype", "wrong_qclass", "wrong_qname",
     "qname_case", "garbage", "cut", "bitflip", "trailing", "rcode_noq", "rcode_noq_nx", "rcode_noq_ext", "rcode_noq_opcode", "tc_genuine", "tc_forged",
-    "tc_cut", "tc_trailing", "icmp", "empty", "forged_addr", "forged_port", "textual", "mcast_other", "extra_question", "dup_question", "noq_noerror", "forged_scope", "forged_flow", "forged_garbage", "forged_tc", "forged_cut",
+    "tc_cut", "tc_trailing", "icmp", "empty", "forged_addr", "forged_port", "textual", "mcast_other", "extra_question", "dup_question", "noq_noerror", "forged_scope", "forged_flow", "forged_garbage", "forged_tc", "forged_cut", "unknown_tsig",
 ]
 
 
@@ -483,7 +490,8 @@ def gen_case(seed, tier):
         "seed": seed,
         "qname": rng.choice(["www.example.", "a.b.example.org.", "MiXed.Example.", "x."]),
         "qtype": rng.choice(["A", "A", "TXT"]),
-        "qid": rng.randrange(65536),
+        # (ids at the edges of the 16-bit range now and then: 0 is what the DoQ/DoH3 code leaves on a reused query object)
+        "qid": rng.choice([0, 0, 1, 0xFFFF, 0x8000]) if rng.random() < 0.08 else rng.randrange(65536),
         "timeout": rng.choice([2.0, 2.0, 0.5, 5.0]),
         "two_q": rng.random() < 0.12,
     }
